@@ -233,3 +233,107 @@ package vmm
 //@   modifies ReservedZeroedFrame, protectReservedZeroedPage, mem, mm.allocState, mapCalls, mapLogPage, mapLogFrame, mapLogFlags, pageTables
 //@   ensures ok: err == nil ==> protectReservedZeroedPage && mapLogFrame[old(mapCalls)] == ReservedZeroedFrame && forall(i, uintptr, i < 4096 ==> mem8(tempMappingAddr + i) == 0)
 //@   ensures fail: err != nil ==> !protectReservedZeroedPage && mem == old(mem)
+
+// ---- operations on a (possibly inactive) address space (C04) ------------------------------------
+// The recursive slot of the ACTIVE top-level table (reached, as the code does, at the table's
+// own address cr3 + 511*8) is pointed at the target table for the duration of the one mapping
+// call and then pointed back at the active table; for the active table itself nothing but the
+// mapping call happens. The mapping call is seen through the callers' abstraction of Map/Unmap.
+//@ spec lastEntryAddr() uintptr = ((cpu.cr3 >> 12) << 12) + 0xff8
+//@ spec withFrame(e uint64, f mm.Frame) uint64 = (e &^ 0x000ffffffffff000) | (uint64(f) << 12)
+//@ func (pdt PageDirectoryTable) Map(page mm.Page, frame mm.Frame, flags PageTableEntryFlag) (err *kernel.Error)
+//@   property C04
+//@   requires uintptr(pdt.pdtFrame) < 0x10000000000 && cpu.cr3 < 0x10000000000000
+//@   modifies mem, mapCalls, mapLogPage, mapLogFrame, mapLogFlags, pageTables, cpu.flushes, cpu.flushLog
+//@   at call mapFn 1: assert mm.Frame(cpu.cr3 >> 12) != pdt.pdtFrame ==> mem64(lastEntryAddr()) == withFrame(old(mem64(lastEntryAddr())), pdt.pdtFrame) && cpu.flushes == old(cpu.flushes) + 1 && cpu.flushLog[old(cpu.flushes)] == lastEntryAddr()
+//@   ensures call: mapCalls == old(mapCalls) + 1 && mapLogPage == upd(old(mapLogPage), old(mapCalls), page) && mapLogFrame == upd(old(mapLogFrame), old(mapCalls), frame) && mapLogFlags == upd(old(mapLogFlags), old(mapCalls), flags)
+//@   ensures active: mm.Frame(cpu.cr3 >> 12) == pdt.pdtFrame ==> mem == old(mem) && cpu.flushes == old(cpu.flushes)
+//@   ensures inactive: mm.Frame(cpu.cr3 >> 12) != pdt.pdtFrame ==> mem64(lastEntryAddr()) == withFrame(old(mem64(lastEntryAddr())), mm.Frame(cpu.cr3 >> 12)) && cpu.flushes == old(cpu.flushes) + 2 && cpu.flushLog[old(cpu.flushes) + 1] == lastEntryAddr()
+//@   ensures rest: forall(a, uintptr, a - lastEntryAddr() >= 8 ==> mem8(a) == old(mem8(a)))
+//@   ensures bitforbit: old(mem64(lastEntryAddr())) & 0x000ffffffffff000 == uint64(cpu.cr3 >> 12) << 12 ==> mem == old(mem)
+
+//@ func (pdt PageDirectoryTable) Unmap(page mm.Page) (err *kernel.Error)
+//@   property C04
+//@   requires uintptr(pdt.pdtFrame) < 0x10000000000 && cpu.cr3 < 0x10000000000000
+//@   modifies mem, pageTables, cpu.flushes, cpu.flushLog
+//@   at call unmapFn 1: assert mm.Frame(cpu.cr3 >> 12) != pdt.pdtFrame ==> mem64(lastEntryAddr()) == withFrame(old(mem64(lastEntryAddr())), pdt.pdtFrame) && cpu.flushes == old(cpu.flushes) + 1 && cpu.flushLog[old(cpu.flushes)] == lastEntryAddr()
+//@   ensures active: mm.Frame(cpu.cr3 >> 12) == pdt.pdtFrame ==> mem == old(mem) && cpu.flushes == old(cpu.flushes)
+//@   ensures inactive: mm.Frame(cpu.cr3 >> 12) != pdt.pdtFrame ==> mem64(lastEntryAddr()) == withFrame(old(mem64(lastEntryAddr())), mm.Frame(cpu.cr3 >> 12)) && cpu.flushes == old(cpu.flushes) + 2 && cpu.flushLog[old(cpu.flushes) + 1] == lastEntryAddr()
+//@   ensures rest: forall(a, uintptr, a - lastEntryAddr() >= 8 ==> mem8(a) == old(mem8(a)))
+//@   ensures bitforbit: old(mem64(lastEntryAddr())) & 0x000ffffffffff000 == uint64(cpu.cr3 >> 12) << 12 ==> mem == old(mem)
+
+//@ func (pdt PageDirectoryTable) Activate()
+//@   property C04 C05
+//@   modifies cpu.cr3
+//@   ensures cpu.cr3 == uintptr(pdt.pdtFrame) << 12
+
+// Init: a table that is not the active one is cleared through the temporary mapping and gets
+// its recursive slot (Present|RW, pointing at itself); the active table is left alone
+//@ func (pdt *PageDirectoryTable) Init(pdtFrame mm.Frame) (err *kernel.Error)
+//@   property C04
+//@   requires pdt != nil && uintptr(pdtFrame) < 0x10000000000
+//@   modifies pdt.pdtFrame, mem, mapCalls, mapLogPage, mapLogFrame, mapLogFlags, pageTables
+//@   ensures set: pdt.pdtFrame == pdtFrame
+//@   ensures atmost: mapCalls - old(mapCalls) <= 1
+//@   ensures active: uintptr(pdtFrame) << 12 == cpu.cr3 ==> err == nil && mem == old(mem) && mapCalls == old(mapCalls)
+//@   ensures tmp: uintptr(pdtFrame) << 12 != cpu.cr3 && !(protectReservedZeroedPage && pdtFrame == ReservedZeroedFrame) ==> mapLogFrame[old(mapCalls)] == pdtFrame && mapLogPage[old(mapCalls)] == mm.Page(tempMappingAddr >> 12)
+//@   ensures fail: err != nil ==> mem == old(mem)
+//@   ensures cleared: err == nil && uintptr(pdtFrame) << 12 != cpu.cr3 ==> forall(i, uintptr, i < 0xff8 ==> mem8(tempMappingAddr + i) == 0) && mem64(tempMappingAddr + 0xff8) == (uint64(pdtFrame) << 12) | 3
+//@   ensures rest: forall(a, uintptr, a - tempMappingAddr >= 4096 ==> mem8(a) == old(mem8(a)))
+
+// ---- the kernel's own address space (C05) -------------------------------------------------------
+// the section visitor: a section below the kernel's virtual base (or any section once an error
+// has been recorded) is skipped without a mapping call; otherwise every page from the one
+// holding the section's first byte to the one holding its last byte is mapped, in ascending
+// order, to the frame at the same distance from (secAddress - kernelPageOffset), with
+// Present, NoExecute unless the section is executable, RW only if it is writable - and never
+// UserAccessible. secFlagsOf: the entry flags for a section.
+//@ spec secFlagsOf(f multiboot.ElfSectionFlag) PageTableEntryFlag = FlagPresent | ite(f&multiboot.ElfSectionExecutable == 0, FlagNoExecute, 0) | ite(f&multiboot.ElfSectionWritable != 0, FlagRW, 0)
+//@ spec secPages(a uintptr, n uint64) uintptr = ((a + uintptr(n - 1)) >> 12) - (a >> 12) + 1
+//@ func setupPDTForKernel$1(name string, secFlags multiboot.ElfSectionFlag, secAddress uintptr, secSize uint64)
+//@   property C05
+//@   requires uintptr(kernelPDT.pdtFrame) < 0x10000000000 && cpu.cr3 < 0x10000000000000
+//@   requires secSize >= 1 && secAddress + uintptr(secSize - 1) >= secAddress
+//@   requires mapCalls < 0x1000000000000
+//@   modifies err, mem, mapCalls, mapLogPage, mapLogFrame, mapLogFlags, pageTables, cpu.flushes, cpu.flushLog
+//@   ensures skip: old(err) != nil || secAddress < kernelPageOffset ==> mapCalls == old(mapCalls) && err == old(err) && mem == old(mem)
+//@   ensures count: old(err) == nil && secAddress >= kernelPageOffset && err == nil ==> mapCalls == old(mapCalls) + secPages(secAddress, secSize)
+//@   ensures calls: old(err) == nil && secAddress >= kernelPageOffset ==> forall(k, uintptr, k < mapCalls - old(mapCalls) ==> mapLogPage[old(mapCalls)+k] == mm.Page(secAddress >> 12) + mm.Page(k) && mapLogFrame[old(mapCalls)+k] == mm.Frame((secAddress - kernelPageOffset) >> 12) + mm.Frame(k) && mapLogFlags[old(mapCalls)+k] == secFlagsOf(secFlags))
+//@   ensures nouser: forall(k, uintptr, k < mapCalls - old(mapCalls) ==> mapLogFlags[old(mapCalls)+k] & FlagUserAccessible == 0)
+//@   ensures older: forall(k, uintptr, k < old(mapCalls) ==> mapLogPage[k] == old(mapLogPage)[k] && mapLogFrame[k] == old(mapLogFrame)[k] && mapLogFlags[k] == old(mapLogFlags)[k])
+//@   loop 1 (curPage <= lastPage) invariant curPage >= mm.Page(secAddress >> 12) && curPage <= lastPage + 1 && lastPage == mm.Page((secAddress + uintptr(secSize-1)) >> 12) && flags == secFlagsOf(secFlags) && err == nil
+//@   loop 1 invariant n: mapCalls == old(mapCalls) + uintptr(curPage - mm.Page(secAddress >> 12)) && curFrame == mm.Frame((secAddress - kernelPageOffset) >> 12) + mm.Frame(curPage - mm.Page(secAddress >> 12))
+//@   loop 1 invariant log: forall(k, uintptr, k < mapCalls - old(mapCalls) ==> mapLogPage[old(mapCalls)+k] == mm.Page(secAddress >> 12) + mm.Page(k) && mapLogFrame[old(mapCalls)+k] == mm.Frame((secAddress - kernelPageOffset) >> 12) + mm.Frame(k) && mapLogFlags[old(mapCalls)+k] == secFlagsOf(secFlags))
+//@   loop 1 invariant older: forall(k, uintptr, k < old(mapCalls) ==> mapLogPage[k] == old(mapLogPage)[k] && mapLogFrame[k] == old(mapLogFrame)[k] && mapLogFlags[k] == old(mapLogFlags)[k])
+
+// setupPDTForKernel. The section walk itself belongs to package multiboot (C10); here it is
+// ASSUMED to do nothing but call the visitor above any number of times, so that what it may
+// change is what the visitor may change, and - by the visitor's contract and bitforbit of
+// PageDirectoryTable.Map - ordinary memory is as before when the recursive slot of the active
+// table pointed at the active table. noEscape is the identity on pointers (x ^ 0).
+//@ func noEscape(p unsafe.Pointer) (r unsafe.Pointer)
+//@   trusted
+//@   ensures r == p
+//@ pred recursiveSlotOK() = mem64(lastEntryAddr()) & 0x000ffffffffff000 == uint64(cpu.cr3 >> 12) << 12
+//@ func multiboot.VisitElfSections(visitor multiboot.ElfSectionVisitor)
+//@   trusted
+//@   modifies elems(*kernel.Error), mem, mapCalls, mapLogPage, mapLogFrame, mapLogFlags, pageTables, cpu.flushes, cpu.flushLog
+//@   ensures old(recursiveSlotOK()) ==> mem == old(mem)
+//@   ensures mapCalls >= old(mapCalls) && mapCalls - old(mapCalls) < 0x1000000000000
+
+// After the sections: every page of the early-reserved region [earlyReserveLastUsed,
+// tempMappingAddr) is mapped in the new table to the frame the active table translates it to,
+// Present|RW, in ascending order; then the new table is made the active one. Any error is
+// returned before the switch.
+//@ func setupPDTForKernel(kernelPageOffset uintptr) (err *kernel.Error)
+//@   property C05
+//@   requires wfReserve() && recursiveSlotOK() && cpu.cr3 < 0x10000000000000 && mapCalls < 0x1000000000000
+//@   modifies kernelPDT.pdtFrame, mm.allocState, elems(*kernel.Error), mem, mapCalls, mapLogPage, mapLogFrame, mapLogFlags, pageTables, cpu.flushes, cpu.flushLog, cpu.cr3
+//@   ensures active: err == nil ==> cpu.cr3 == uintptr(kernelPDT.pdtFrame) << 12
+//@   ensures notactive: err != nil ==> cpu.cr3 == old(cpu.cr3)
+//@   ensures reserved: err == nil ==> forall(k, uintptr, k < (tempMappingAddr - earlyReserveLastUsed) >> 12 ==> mapLogPage[mapCalls - ((tempMappingAddr - earlyReserveLastUsed) >> 12) + k] == mm.Page(earlyReserveLastUsed >> 12) + mm.Page(k) && mapLogFlags[mapCalls - ((tempMappingAddr - earlyReserveLastUsed) >> 12) + k] == FlagPresent|FlagRW && mapLogFrame[mapCalls - ((tempMappingAddr - earlyReserveLastUsed) >> 12) + k] == mm.Frame((mem64(pte3(earlyReserveLastUsed + (k << 12))) & 0x000ffffffffff000) >> 12))
+//@   loop 1 (rsvAddr < tempMappingAddr) ghost m1 = mapCalls
+//@   loop 1 ghost m0 = mem
+//@   loop 1 invariant rsvAddr >= earlyReserveLastUsed && rsvAddr <= tempMappingAddr && rsvAddr&0xfff == 0 && wfReserve() && cpu.cr3 == old(cpu.cr3) && recursiveSlotOK() && mem == m0 && uintptr(kernelPDT.pdtFrame) < 0x10000000000
+//@   loop 1 invariant n: mapCalls == m1 + ((rsvAddr - earlyReserveLastUsed) >> 12) && m1 < 0x4000000000000
+//@   loop 1 invariant log: forall(k, uintptr, k < (rsvAddr - earlyReserveLastUsed) >> 12 ==> mapLogPage[m1 + k] == mm.Page(earlyReserveLastUsed >> 12) + mm.Page(k) && mapLogFlags[m1 + k] == FlagPresent|FlagRW && mapLogFrame[m1 + k] == mm.Frame((mem64(pte3(earlyReserveLastUsed + (k << 12))) & 0x000ffffffffff000) >> 12))
